@@ -172,4 +172,31 @@ def clashFields (os : KVs) : KVs → Bool
 termination_by structural ds => ds
 end
 
+-- the converse, deliberately coarse: observed and desired "agree in shape" when no pair of values that the merge could
+-- ever bring together (same key of two objects; any two items of two lists) differs in JSON kind, nulls aside. When they
+-- agree in shape the merge has no clash to report - whatever the last-applied record looks like - and must succeed.
+def kindOf : J → Nat
+  | .null => 0 | .bool _ => 1 | .num _ => 2 | .str _ => 3 | .arr _ => 4 | .obj _ => 5
+
+mutual
+def shapeMismatch : J → J → Bool
+  | .obj os, .obj ds => shapeMismatchFields os ds
+  | .arr xs, .arr ys => shapeMismatchItems xs ys
+  | .null, _ => false
+  | _, .null => false
+  | o, d => kindOf o != kindOf d && (kindOf o ≥ 4 || kindOf d ≥ 4)
+termination_by structural _ d => d
+def shapeMismatchFields (os : KVs) : KVs → Bool
+  | [] => false
+  | (k, dv) :: rest =>
+      (match lookup k os with
+       | some ov => shapeMismatch ov dv
+       | none => false) || shapeMismatchFields os rest
+termination_by structural ds => ds
+def shapeMismatchItems (xs : List J) : List J → Bool
+  | [] => false
+  | y :: rest => xs.any (fun x => shapeMismatch x y) || shapeMismatchItems xs rest
+termination_by structural ys => ys
+end
+
 end Mc.C05
